@@ -101,6 +101,16 @@ Summary
     """"""").
 Proof. repeat split; vm_compute; reflexivity. Qed.
 
+(* doctransify_cst as a whole (Model/DoctransFlow.v): for every definition of the converted AST, in any order, with any new
+   docstring and ANY rewrite of the header text -- find the CST node, edit the docstring node after it, rewrite the header.
+   Every CST node that is neither a def / class header nor a docstring keeps its text and its place; so do all the
+   statements, comments and blank lines they hold. *)
+From CDD Require Import DoctransFlow DoctransFlowProofs.
+Theorem C07_only_headers_and_docstrings_change : forall defs l,
+  forallb (fun d => header_kind (d_kind d)) defs = true -> others (doctransify l defs) = others l.
+Proof. exact doctransify_others. Qed.
+Print Assumptions C07_only_headers_and_docstrings_change.
+
 (* Which CST node an AST definition is written back to (find_cst_at_ast): the FIRST node whose line window contains the
    definition's line and whose kind and name agree; when there is none, no node satisfies the three conditions. *)
 Theorem C07_find_cst_first_match : forall l lineno kind name k,
